@@ -149,6 +149,12 @@ def run_transform(ctx, tname):
                 i, j = rng.choice(len(row), size=2, replace=False)
                 row[i], row[j] = 1.0, float(1 + r)
         meta['kind'] = 'int_range'
+    if tname in ('minmax', 'geodesic') and rng.integers(4) == 0 and not nan:
+        # ratings on a -100 ... +100 scale: they fit a signed byte, their range does not
+        v = rng.integers(-100, 101, size=v.shape).astype(float)
+        for row in v:
+            row[int(rng.integers(row.size))], row[int(rng.integers(row.size))] = -100.0, 100.0
+        meta['kind'] = 'byte_range'
     if tname == 'rank':
         params['method'] = gen.pick(rng, ['average', 'average', 'average', 'min', 'max', 'dense', 'ordinal'])
     if tname == 'geotopological':
@@ -164,7 +170,7 @@ def run_transform(ctx, tname):
     # of the same numbers must not depend on how they are stored
     int_storage = bool(not nan and np.all(v == np.round(v)) and np.all(np.abs(v) < 2 ** 40) and rng.integers(2))
     sig['int_storage'] = int_storage
-    rd = build(v.astype(np.int64) if int_storage else v, meta)
+    rd = build(v.astype(np.int8 if meta['kind'] == 'byte_range' else np.int64) if int_storage else v, meta)
     wit = lambda **k: dict(transform=tname, v=v, params=params, measure=meta['meas'], int_storage=int_storage, **k)  # noqa: E731
     if tname == 'rank':
         call = lambda: T.rank_transform(rd, **params)  # noqa: E731
